@@ -120,12 +120,17 @@ func run(r *ev.Run, cfg props.Cfg) {
 		return
 	}
 	W := cfg.Workers
+	// A single legal decode call may allocate more than 4 GiB: at most eight children run at a time
+	// so that the worst case stays far below the machine's memory (the work is still cut into W slices).
+	sem := make(chan struct{}, 8)
 	var wg sync.WaitGroup
 	for w := 0; w < W; w++ {
 		w := w
 		wg.Add(1)
 		go func() {
 			defer wg.Done()
+			sem <- struct{}{}
+			defer func() { <-sem }()
 			superviseWorker(r, cfg, w, W)
 		}()
 	}
